@@ -308,10 +308,9 @@ func AtomicPoint(addr unsafe.Pointer) {
 	if t == nil {
 		return
 	}
-	if exemptAtomic != nil {
-		if _, ok := exemptAtomic[uintptr(addr)]; ok {
-			return
-		}
+	_, listed := exemptAtomic[uintptr(addr)]
+	if listed == allAtomics {
+		return // all-but-listed mode and listed, or only-listed mode and not listed
 	}
 	t.simple(OpAtomic, uintptr(addr), false)
 }
@@ -319,7 +318,11 @@ func AtomicPoint(addr unsafe.Pointer) {
 // ExemptAtomics declares atomic cells whose operations are performed without a schedule point
 // (striped metric counters: their adds commute). Must be called by the main scenario thread
 // before any other thread touches them.
-func ExemptAtomics(m map[uintptr]struct{}) { exemptAtomic = m }
+func ExemptAtomics(m map[uintptr]struct{}) { exemptAtomic, allAtomics = m, true }
+
+// OnlyAtomics makes exactly the listed cells schedule points; every other atomic operation is
+// performed without a point (used when metrics are on: 2816 striped counters whose adds commute).
+func OnlyAtomics(m map[uintptr]struct{}) { exemptAtomic, allAtomics = m, false }
 
 // Choose returns a value in [0,n) picked by the explorer (a free, non-preemptive choice).
 //
@@ -757,6 +760,7 @@ func resetGlobals() {
 	stepNo = 0
 	epoch++
 	exemptAtomic = nil
+	allAtomics = true
 	shadowOn = false
 	shadow = nil
 	daemonYield = false
